@@ -945,7 +945,13 @@ func TestVfC12Replay(t *testing.T) {
 
 // ---------------------------------------------------------------- seeded random vectors (code -> spec)
 
-type vfC12Gen struct{ r *rand.Rand }
+// clean: keep the inputs of the confirmed defects (DESIGN section 9) out of nested values, so that a
+// nested vector that fails is never attributed to one of them by its inputs alone; scalar vectors
+// (where the check verifies the defect's symptom on the output) keep them.
+type vfC12Gen struct {
+	r     *rand.Rand
+	clean bool
+}
 
 func (g *vfC12Gen) big(maxBits int, signed bool) *big.Int {
 	bits := g.r.Intn(maxBits + 1)
@@ -1028,7 +1034,13 @@ var vfC12ScalarKinds = map[string][]string{
 func (g *vfC12Gen) scalarVal(t, k string) vfC12Val {
 	switch t {
 	case "tinyint", "smallint", "int", "bigint", "counter", "varint":
-		return g.intFor(k)
+		v := g.intFor(k)
+		if w, fixed := map[string]int{"tinyint": 1, "smallint": 2, "int": 4, "bigint": 8, "counter": 8}[t]; fixed && g.clean && vfC12IntKindBits[k] < 0 {
+			for x, _ := vfC12Big(&v); x.BitLen() > 8*w-1; x, _ = vfC12Big(&v) {
+				v = g.intFor(k)
+			}
+		}
+		return v
 	case "text", "ascii", "varchar", "blob":
 		return vfC12Val{K: "bytes", B: g.bytes(g.r.Intn(12))}
 	case "boolean":
@@ -1048,7 +1060,7 @@ func (g *vfC12Gen) scalarVal(t, k string) vfC12Val {
 		if k == "string" {
 			return vfC12AbsBig(big.NewInt(int64(g.r.Intn(2932896+719162) - 719162)))
 		}
-		return vfC12AbsBig(g.big(47, true))
+		return vfC12AbsBig(g.big(47, !g.clean))
 	case "duration":
 		if k == "cdur" {
 			mo, d, ns := g.intFor("int32"), g.intFor("int32"), g.intFor("int64")
@@ -1083,6 +1095,9 @@ func (g *vfC12Gen) scalar(hashable bool) (vfC12Type, vfC12Kind, vfC12Val) {
 		t := g.pick([]string{"tinyint", "smallint", "int", "bigint", "counter", "varint", "varint", "text", "ascii", "varchar", "blob", "boolean",
 			"float", "double", "decimal", "time", "timestamp", "timestamp", "date", "date", "duration", "duration", "uuid", "timeuuid", "inet"})
 		k := g.pick(vfC12ScalarKinds[t])
+		if g.clean && ((t == "duration" && k == "nint64") || ((t == "bigint" || t == "counter") && k == "bigint")) {
+			k = "int64"
+		}
 		if hashable && (k == "bytes" || k == "bigint" || k == "ip" || k == "dec") {
 			continue
 		}
@@ -1197,6 +1212,15 @@ func (g *vfC12Gen) distinct(t *vfC12Type, k *vfC12Kind, n int, proto int) []vfC1
 		if err != nil {
 			js, _ := json.Marshal(v)
 			s = string(js)
+		}
+		if kk := k; t.T == "date" && v.K == "int" {
+			if kk.G == "ptr" {
+				kk = kk.E
+			}
+			if kk.G != "string" { // two instants of one day are one key of the column
+				x, _ := vfC12Big(&v)
+				s = new(big.Int).Div(x, big.NewInt(86400000)).String() // Euclidean = floor for a positive divisor
+			}
 		}
 		if seen[s] {
 			continue
@@ -1324,6 +1348,79 @@ func vfC12KindObj(k *vfC12Kind) vfC12Obj {
 	return o
 }
 
+// vfC12Vector runs Marshal on (kind, value) and Unmarshal of the real bytes into every target kind
+// and returns the record TLC validates (Trace_Cql.tla).
+func vfC12Vector(n int, ct *vfC12Type, ck *vfC12Kind, cv *vfC12Val, proto int, targets []vfC12Kind) (vfC12Obj, error) {
+	info, err := vfC12Info(ct, byte(proto))
+	if err != nil {
+		return nil, err
+	}
+	val, err := vfC12Build(ck, cv, ct)
+	if err != nil {
+		return nil, err
+	}
+	res, data := vfC12Marshal(info, val)
+	rec := vfC12Obj{"n": n, "T": vfC12TypeObj(ct), "p": proto, "K": vfC12KindObj(ck), "gv": vfC12ValObj(cv), "res": res}
+	decs := []interface{}{}
+	if res["st"] == "ok" || res["st"] == "null" {
+		for i := range targets {
+			d := vfC12Unmarshal(info, ct, &targets[i], data)
+			d["K"] = vfC12KindObj(&targets[i])
+			decs = append(decs, d)
+		}
+	}
+	rec["decs"] = decs
+	return rec, nil
+}
+
+// TestVfC12Rerun re-executes given inputs (replay of a reported violation): NDJSON lines
+// {T, p, K, gv, targets: [K, ...]} in, vector records out.
+func TestVfC12Rerun(t *testing.T) {
+	in, out := os.Getenv("VF_INPUTS"), os.Getenv("VF_VECTORS")
+	if in == "" || out == "" {
+		t.Skip("VF_INPUTS / VF_VECTORS not set")
+	}
+	f, err := os.Open(in)
+	if err != nil {
+		t.Fatal(err)
+	}
+	defer f.Close()
+	w, err := os.Create(out)
+	if err != nil {
+		t.Fatal(err)
+	}
+	bw := bufio.NewWriter(w)
+	sc := bufio.NewScanner(f)
+	sc.Buffer(make([]byte, 1<<20), 1<<26)
+	n := 0
+	for sc.Scan() {
+		if len(sc.Bytes()) == 0 {
+			continue
+		}
+		var c struct {
+			T       vfC12Type   `json:"T"`
+			P       int         `json:"p"`
+			K       vfC12Kind   `json:"K"`
+			Gv      vfC12Val    `json:"gv"`
+			Targets []vfC12Kind `json:"targets"`
+		}
+		if err := json.Unmarshal(sc.Bytes(), &c); err != nil {
+			t.Fatal(err)
+		}
+		rec, err := vfC12Vector(n, &c.T, &c.K, &c.Gv, c.P, c.Targets)
+		if err != nil {
+			t.Fatalf("input %d: %v", n, err)
+		}
+		js, _ := json.Marshal(rec)
+		bw.Write(js)
+		bw.WriteByte('\n')
+		n++
+	}
+	bw.Flush()
+	w.Close()
+	fmt.Printf("VFSUMMARY {\"vectors\": %d}\n", n)
+}
+
 func TestVfC12Random(t *testing.T) {
 	out := os.Getenv("VF_VECTORS")
 	if out == "" {
@@ -1344,27 +1441,12 @@ func TestVfC12Random(t *testing.T) {
 	for i := 0; written < n && i < 20*n; i++ {
 		proto := []int{1, 2, 3, 4, 5}[g.r.Intn(5)]
 		depth := []int{0, 0, 1, 1, 2}[g.r.Intn(5)]
+		g.clean = depth > 0
 		ct, ck, cv := g.value(depth, proto, false)
-		info, err := vfC12Info(&ct, byte(proto))
-		if err != nil {
-			t.Fatal(err)
-		}
-		val, err := vfC12Build(&ck, &cv, &ct)
+		rec, err := vfC12Vector(written, &ct, &ck, &cv, proto, g.targets(&ct, &ck))
 		if err != nil {
 			continue // e.g. two abstract keys that collapse into one Go key
 		}
-		res, data := vfC12Marshal(info, val)
-		rec := vfC12Obj{"n": written, "T": vfC12TypeObj(&ct), "p": proto, "K": vfC12KindObj(&ck), "gv": vfC12ValObj(&cv), "res": res}
-		decs := []interface{}{}
-		if res["st"] == "ok" || res["st"] == "null" {
-			for _, tk := range g.targets(&ct, &ck) {
-				tk := tk
-				d := vfC12Unmarshal(info, &ct, &tk, data)
-				d["K"] = vfC12KindObj(&tk)
-				decs = append(decs, d)
-			}
-		}
-		rec["decs"] = decs
 		js, err := json.Marshal(rec)
 		if err != nil {
 			t.Fatal(err)
